@@ -429,7 +429,13 @@ pub fn run(prop: &str, seed: u64, ninputs: usize, trace_path: Option<&str>, expo
                 // (one LZMA2 chunk per read): the reference output is the fault-free run under the
                 // same fragmentation
                 let expected = if f.frags.is_empty() { expected.clone() } else {
-                    Rc::new(run_api(a, &input, &empty, &Faults { frags: f.frags.clone(), ..Default::default() }).sink)
+                    let fr = run_api(a, &input, &empty, &Faults { frags: f.frags.clone(), ..Default::default() });
+                    if fr.verdict != Verdict::Ok {
+                        // the fragmenting source alone changes the verdict: C13's text, not C12's
+                        rep.drift(format!("(C13 clause seen while checking {}) {} fails under source fragments {:?} without any fault", prop, a.name(), f.frags), json!({"api": a.name()}));
+                        continue;
+                    }
+                    Rc::new(fr.sink)
                 };
                 let r = run_api(a, &input, &expected, &f);
                 // a call that returned an error ...
